@@ -123,6 +123,12 @@ def c14a(ck, prog):
             src = paths.root_call(f, ah[0].args[1])      # to_string(x): follow x
             xop = src.args[0] if src is not None and src.args else ah[0].args[1]
             leaves = paths.leaf_values(f, xop)
+            for _ in range(3):
+                # an owning conversion of the chosen text (`allow_headers.to_owned()`): follow what is converted
+                if len(leaves) == 1 and leaves[0][0] == "call" and leaves[0][1].name in ("to_owned", "to_string", "into", "from", "clone", "to_vec") and leaves[0][1].args:
+                    leaves = paths.leaf_values(f, leaves[0][1].args[0])
+                else:
+                    break
             kinds = set()
             for l in leaves:
                 if l[0] == "call" and l[1].name == "AccessControlRequestHeaders":
@@ -157,6 +163,24 @@ def c14a(ck, prog):
         conds = conds_at(b, prog, bi)
         val = decision.describe_deep(b, s_["r"][1], 1) if s_["r"][0] == "use" else "?"
         ok = val == "const 1" and conds and all(re.search(r"^!is_any\(", x) for x in conds)
+    if not sts:
+        # `match self.AllowOrigin { Only(_) => Self { AllowCredentials: true, ..self }, Any => self }`
+        aggs = [(bi, st) for bi in sorted(b.live_blocks()) for st in b.blocks[bi]["st"]
+                if st["k"] == "=" and st["r"][0] == "agg" and isinstance(st["r"][1], dict) and re.search(r"cors::CORS$", st["r"][1].get("adt") or "") and "AllowCredentials" in (st["r"][1].get("fields") or [])]
+        ok = bool(aggs)
+        for bi, st in aggs:
+            op = st["r"][2][st["r"][1]["fields"].index("AllowCredentials")]
+            val = decision.describe_deep(b, op, 2)
+            if val == "const 0" or re.search(r"arg1\.AllowCredentials$", val):
+                continue
+            not_any = False
+            for fa in guards.facts_at(b, prog, bi):
+                w = (decision.describe_deep(b, fa.place, 4) if getattr(fa, "place", None) else guards.describe_origin(b, fa.steps)) if fa.kind == "variant" else ""
+                if fa.kind == "variant" and fa.allowed is not None and "Any" not in fa.allowed and "AllowOrigin" in w:
+                    not_any = True
+                if fa.kind == "boolcall" and fa.call.name == "is_any" and not fa.truth:
+                    not_any = True
+            ok = ok and val == "const 1" and not_any
     ck.ob(R, "builder:no-credentials-with-wildcard", bool(ok), b.loc(None), "" if ok else "CORS::AllowCredentials() can enable credentials for the wildcard origin", how="AllowCredentials = true only under !AllowOrigin.is_any()")
     new = prog.method(r"^ohkami::fang::builtin::cors::CORS$", "new")
     rows = decision.const_table(new, prog)
@@ -299,6 +323,20 @@ def c14c(ck, prog):
                   if st["k"] == "=" and st["p"][0] == 1 and st["p"][1] and st["p"][1][-1][0] == "f"]
         mine = [(bi, st) for bi, st in stores if st["p"][1][-1][2] == f.name]
         n += 1
+        if not mine:
+            # `Self { <field>: Some(value), ..self }`: the returned policy is one aggregate whose <field> is built from the parameter
+            aggs = [(bi, st) for bi in sorted(f.live_blocks()) for st in f.blocks[bi]["st"]
+                    if st["k"] == "=" and st["r"][0] == "agg" and isinstance(st["r"][1], dict) and re.search(r"cors::CORS$", st["r"][1].get("adt") or "") and f.name in (st["r"][1].get("fields") or [])]
+            if len(aggs) == 1:
+                bi, st = aggs[0]
+                op = st["r"][2][st["r"][1]["fields"].index(f.name)]
+                d = decision.describe_deep(f, op, 5)
+                cond = [fa for fa in guards.facts_at(f, prog, bi) if fa.kind in ("cmp", "boolcall", "variant", "int", "boolplace")]
+                rets = paths.ret_sites(f)
+                oku = re.fullmatch(r"Some\{(\w+\()*arg2[^{}]*\}", d) is not None and not cond and all(f.dominates(bi, bb) for bb, _, _ in rets)
+                ck.ob(R, "CORS::%s" % f.name, oku, f.loc(None), "" if oku else "CORS::%s does not keep the setting it is given (the returned policy has %s = `%s`%s)" % (f.name, f.name, d[:60], " under %d condition(s)" % len(cond) if cond else ""),
+                      how="Self { %s: Some(<the parameter>), ..self } unconditionally" % f.name)
+                continue
         ok = len(mine) == 1
         why = "%d store(s) to the field `%s`" % (len(mine), f.name)
         if ok:
